@@ -285,8 +285,11 @@ class Mpo(MatrixProduct):
         # evaluate the symbolic mpo
         assert model.basis is not None
 
-        for impo, mo in enumerate(self.symbolic_mpo):
-            mo_mat = symbolic_mo_to_numeric_mo(model.basis[impo], mo, self.dtype)
+        mo_mats = [symbolic_mo_to_numeric_mo(model.basis[impo], mo, self.dtype)
+                   for impo, mo in enumerate(self.symbolic_mpo)]
+        if any(np.iscomplexobj(mo_mat) for mo_mat in mo_mats):
+            self.to_complex(inplace=True)
+        for mo_mat in mo_mats:
             self.append(mo_mat)
 
 
